@@ -956,10 +956,10 @@ class Ctx:
     """Returns a python bool, forking on symbolic conditions."""
     if isinstance(cond, bool):
       return cond
-    cond = z3.simplify(cond)
-    if z3.is_true(cond):
+    simp = z3.simplify(cond)  # only to detect constants; pc keeps the original
+    if z3.is_true(simp):
       return True
-    if z3.is_false(cond):
+    if z3.is_false(simp):
       return False
     if self.choose(2) == 0:
       self.pc.append(cond)
@@ -1074,3 +1074,32 @@ class Lemma:
     assert len(terms) == len(self.vars)
     return LemmaInst(self.name, z3.substitute(
         self.body, *[(v, to_z3(t)) for v, t in zip(self.vars, terms)]))
+
+
+class SeqV(Val):
+  """An immutable iterable given as a z3 Seq and an element codec (a tuple, a
+  generator argument, ...).  Iteration is one pass in order."""
+
+  def __init__(self, seq, codec):
+    self.seq, self.codec = seq, codec
+
+  @property
+  def term(self):
+    return self.seq
+
+  def iterate(self, ctx):
+    return IterSpec(seq=self.seq, codec=self.codec)
+
+  def length(self, ctx):
+    return z3.Length(self.seq)
+
+  def getitem(self, ctx, idx):
+    if isinstance(idx, SliceV):
+      return SeqV(seq_slice(self.seq, idx.lo, idx.hi)[0], self.codec)
+    n = z3.Length(self.seq)
+    i = to_z3(idx)
+    ctx.oblige('index.seq', z3.And(i >= -n, i < n), kind='definedness', detail='IndexError')
+    return self.codec.dec(self.seq[z3.If(i < 0, i + n, i)])
+
+  def make_iter(self, ctx):
+    return ctx.alloc(IterCell(self.seq, self.codec, 0))
